@@ -60,13 +60,15 @@ def handleIns (st : St) (op : String) (j : Json) : Option (D (St × Json)) :=
     -- non-leaf type (`type.create` then gives the empty element node the theorem speaks about)
     | "retype" =>
       let ty ← nat (← field j "ty")
-      let (ms, valid) := match d.resolve p with
+      let (ms, valid, nleaf, atStart) := match d.resolve p with
         | some r =>
           match r.parent.kids[r.index r.depth]? with
-          | some n => (n.marks, S.validContent ty n.kids)
-          | none => ([], false)
-        | none => ([], false)
-      return (st, Json.mkObj [("ok", Json.bool (changeTypeGuard S d p ty ms && !(S.nodeType ty).isLeaf)),
-        ("valid", Json.bool valid)])
+          | some n => (n.marks, S.validContent ty n.kids, n.isLeaf, r.textOffset == 0)
+          | none => ([], false, false, false)
+        | none => ([], false, false, false)
+      -- `canChangeType_setNodeMarkup_applies` (non-leaf node, non-leaf type) / `…_leaf_applies` (leaf node at its start,
+      -- leaf type other than text): `type.create` then gives the node the theorem speaks about
+      let shape := if nleaf then (S.nodeType ty).isLeaf && !(S.nodeType ty).isText && atStart else !(S.nodeType ty).isLeaf
+      return (st, Json.mkObj [("ok", Json.bool (changeTypeGuard S d p ty ms && shape)), ("valid", Json.bool valid)])
     | _ => throw s!"bad insGuard kind {k}"
   | _ => none
